@@ -29,6 +29,15 @@ def fnv (b : List UInt8) : UInt64 :=
 def digest (b : List UInt8) : String :=
   if b.length ≤ 32 then s!"{b.length}:{Driver.toHex b}" else s!"{b.length}:#{(fnv b).toNat}"
 
+/-- long result lines (hundreds of pieces) are cut to head + length + FNV-64 of the whole + tail;
+    both sides apply the same rule -/
+def compress (s : String) : String :=
+  let cs := s.toList
+  if cs.length ≤ 1200 then s
+  else
+    let h := fnv (cs.map fun c => UInt8.ofNat c.toNat)
+    String.ofList (cs.take 500) ++ s!" ...[{cs.length}:#{h.toNat}]... " ++ String.ofList (cs.drop (cs.length - 300))
+
 def showHdr (h : Hdr) : String :=
   s!"{h.ihl},{h.tos},{h.totalLength},{h.ident},{h.fragOffset},{h.flags},{h.ttl},{h.proto},{h.checksum},{h.src},{h.dst}"
 
@@ -63,7 +72,7 @@ def step (cur : List Frag) (ws : List String) : List Frag × String :=
     | some mtu =>
       let rs := cur.map fun f => fragment f.1 f.2 mtu
       let next := rs.flatMap fun r => match r with | .ok v => v.pieces | .error _ => []
-      (next, " ".intercalate (rs.map showFragments) ++ s!" n={next.length}")
+      (next, compress (" ".intercalate (rs.map showFragments) ++ s!" n={next.length}"))
   | _ => (cur, "bad-op")
 
 def dispatch (sub : String) (i o : IO.FS.Stream) : Option (IO Unit) :=
